@@ -1,4 +1,5 @@
 import RxnModel.Proofs.TimersRun
+import RxnModel.Proofs.TimersOpRefine
 /-!
 # C10 — event-time timers fire exactly once, in order, and survive recovery
 
@@ -33,8 +34,10 @@ theorem store_earliest_min (s : Store) (hs : SInv s) :
 
 /-- FULL STATEMENT (false of the code, see `preepoch_counterexample`, finding D51): the same without the `0 ≤ t` part
 of `ROp.valid`, i.e. for timers at any timestamp an `int64` of nanoseconds can hold.
-PROVED (`_partial`): with `ROp.valid`, whose excluding hypothesis is exactly `0 ≤ t` (timers not before 1970; `t < 2^63`
-is the range of `UnixNano`), and subject keys of the store's own key groups,
+PROVED (`_partial`): with `ROp.valid`: subject keys of the store's own key groups; `0 ≤ t` (timers not before 1970: the
+exclusion of D51); and `t < 2^63`, an input restriction of Go itself — `time.Time.UnixNano`: "The result is undefined if the
+Unix time in nanoseconds cannot be represented by an int64 (a date before the year 1678 or after 2262)" — so timers the
+codec cannot represent are outside the property (on the code they wrap around; never generated, never labelled D51);
 the registry refines the timer-set specification for every history: for every cache size, every key-group range,
 every sequence of registrations (repeated or not), watermark advances from any runners and heap peeks, each advance
 fires exactly the timers the specification fires (each once: `Perm` of duplicate-free lists), in non-decreasing timestamp
@@ -119,6 +122,38 @@ theorem restore_pending_subrange_partial (kgc start stop start' stop' maxCache m
   have h2 := run_refines after restored specRestored kgc start' stop' hr
     (shape_new _ kgc start' stop' maxCache' hs2) hv2
   exact ⟨hr, h2.2.2, h2.1⟩
+
+/-- (`_partial`: timers `0 ≤ t` — D51 — of owned keys.) the operator's loop over `AdvanceWatermark` — `handleWatermark`, where
+full batches are handed to the handler **between two firings** and the handler's new timers go through `SetTimer` while the
+iterator is still being consumed — refines the specification: for every operator state related to a specification state,
+every batch size and batch content, every cache size, the `TimerExpired` events the step adds (to the requests it sends and
+to the batch it leaves) are exactly the timers pending at or before the new composite watermark, each once (`Perm` of a
+duplicate-free list), in non-decreasing timestamp order; a timer the handler registers during the step is judged against
+the new composite (at or before it: ignored, as by `SetTimer`; later: pending afterwards, it does not fire in this step);
+afterwards nothing at or before the composite is pending and every timer pending before and later than it still is. -/
+theorem op_refines_spec_partial (o : Op) (sp : Spec) (kgc start stop : Nat) (h : Rel o.reg sp)
+    (hsh : Shape o.reg.store kgc start stop) (hv : ∀ x ∈ o.batch, x.valid kgc start stop) (sender : String) (v : Int) :
+    (∃ fired : List (Bytes × Int),
+      allEvents (o.watermark sender v).2 (o.watermark sender v).1 = o.batch ++ fired.map (fun p => HEv.expired p.1 p.2) ∧
+      fired.Perm (sp.advance sender v).2 ∧ fired.Pairwise (fun a b => a.2 ≤ b.2) ∧ fired.Nodup) ∧
+    (∃ sp', Rel (o.watermark sender v).1.reg sp' ∧ sp'.wm = (sp.advance sender v).1.wm ∧
+      (∀ p ∈ sp'.pending, p.2 > sp'.wm) ∧ (∀ p ∈ (sp.advance sender v).1.pending, p ∈ sp'.pending)) ∧
+    Shape (o.watermark sender v).1.reg.store kgc start stop ∧
+    (∀ x ∈ (o.watermark sender v).1.batch, x.valid kgc start stop) := by
+  have r := opWatermark_refines o sp kgc start stop h hsh hv sender v
+  obtain ⟨fired, f1, f2, f3⟩ := r.out
+  obtain ⟨sp', s1, s2, s3, s4⟩ := r.rel
+  refine ⟨⟨fired, f1, f2, f3, ?_⟩, ⟨sp', s1, s2, ?_, ?_⟩, r.shape, r.valid⟩
+  · exact (f2.nodup_iff).mpr (nodup_filter _ _ h.nodup)
+  · intro p hp
+    have : p ∉ dueOf sp' (sp.ups.report sender v).2 := by rw [s3]; exact List.not_mem_nil
+    rw [s2]
+    by_cases hle : p.2 ≤ (sp.ups.report sender v).2
+    · exact absurd (List.mem_filter.mpr ⟨hp, by simpa using hle⟩) this
+    · omega
+  · intro p hp
+    have hp' := List.mem_filter.mp hp
+    exact s4 p hp'.1 (by simpa using hp'.2)
 
 /-! ### D51: timers before 1970 (open finding)
 
